@@ -442,7 +442,16 @@ func c10ColdBurst(c *caseCtx) {
 			c.count("cold_burst_constraint_violations", 1)
 			c.distinct("cold-constraint|" + method + "|" + cst.name)
 		}
-		if i%4 == 3 && len(unknownNames) > 0 {
+		if i < 2*len(unknownNames) && i < 3*G {
+			// the first wave: every "unknown name" rejection of the method TWICE, side by side, in a process that has never
+			// formatted that message before (lazily built name lists, first-use caches on the error paths)
+			cst := unknownNames[i/2]
+			g = validBase(method, c.rng)
+			cst.apply(g.M)
+			g.invalid = true
+			c.count("cold_burst_constraint_violations", 1)
+			c.distinct("cold-constraint|" + method + "|" + cst.name)
+		} else if i%4 == 3 && len(unknownNames) > 0 {
 			// every burst meets every "unknown name" rejection of its method: those paths enumerate the shared registries
 			cst := unknownNames[(i/4)%len(unknownNames)]
 			g = validBase(method, c.rng)
